@@ -32,6 +32,8 @@ type attemptOpts struct {
 	deep         bool // keep deep snapshots for the stability check
 	refuse       string
 	cancelOnFail bool // the failing handler call cancels the caller's context first
+	panicOnFail  bool // the failing handler call panics instead of returning an error
+	background   bool // Stream is given a context that can never be cancelled (context.Background())
 }
 
 func defaultOpts() attemptOpts {
@@ -188,6 +190,12 @@ func runAttempt(s *gobinlog.Streamer, m *simMaster, h *hist, mapper *tblMapper, 
 			if o.cancelOnFail {
 				cancel()
 			}
+			if o.panicOnFail {
+				atomic.AddInt32(&inHandler, -1)
+				atomic.AddInt32(&inHandler, 1)
+				var nilMap map[string]int
+				nilMap["consumer bug"] = 1 // panics
+			}
 			return fmt.Errorf("handler failure (injected)")
 		}
 		res.accepted = append(res.accepted, txt)
@@ -229,6 +237,10 @@ func runAttempt(s *gobinlog.Streamer, m *simMaster, h *hist, mapper *tblMapper, 
 				done <- fmt.Errorf("PANIC in Stream: %v", r)
 			}
 		}()
+		if o.background {
+			done <- s.Stream(context.Background(), handler)
+			return
+		}
 		done <- s.Stream(ctx, handler)
 	}()
 	select {
